@@ -20,6 +20,10 @@ type c07Case struct {
 	Cfg    drv.Cfg
 	Expect string `json:",omitempty"` // canonical value of the FULL program when it is known ("" = unknown)
 	MustErr bool  `json:",omitempty"` // the program exceeds a built-in capacity: it must be rejected
+	// Lazy: the VM holds never-compiled values whose body is LazyBody: a computed value lzc and a function lzf() in its
+	// variables (as restored from a snapshot / created by the host); Src is evaluated Reps times on the one VM
+	LazyBody string `json:",omitempty"`
+	Reps     int    `json:",omitempty"`
 }
 
 // K: work per counted operation that is still "proportional" (a native method may touch up to 512 elements,
@@ -46,6 +50,25 @@ func c07Enumerate(tier string, seed int64, emit func(string, any)) {
 		"x='a'; i=0; while i<M { x = x + x; i=i+1 }; 1", "x='a'; while 1 { x = x + x }", "x='a'; while 1 { x = `{x}{x}` }", "x='ab'; i=0; while i<M { x = x + x; i=i+1 }; x[1]",
 		"[1..500].kh(M)", "[1..500].randSize(M)", "x=[1..500]; i=0; while i<M { x.shuffle(); i=i+1 }; 1", "x=[1..500]; i=0; while i<M { x.sum(); i=i+1 }; 1", "i=0; while i<M { f; i=i+1 }; 1", "i=0; while i<M { b3; i=i+1 }; 1",
 		"i=0; while i<M { toStr([1..500]); i=i+1 }; 1", "x = {}; i=0; while i<M { x[i] = i; i=i+1 }; x.len()", "d(d(d(dM)))", "Md6d6", "(Md1)d6", "2dM优势",
+	}
+	// work hidden behind values that are compiled lazily, again and again: a default-sides expression (compiled per sub-VM),
+	// host values built anew by the loader on every load, RunExpr-like bodies
+	for _, m := range []string{"20", "300", "5000"} {
+		for _, b := range budgets {
+			for _, t := range []struct{ src, def string; host bool }{
+				{"func g(){ d + d }; i=0; while i < M { g(); i = i + 1 }; i", "6", false},
+				{"i=0; while i < M { 3d; i = i + 1 }; i", "2d6", false},
+				{"func g(){ 2d }; func h(){ g() + g() }; i=0; while i < M { h(); i = i + 1 }; i", "d4+2", false},
+				{"i=0; while i < M { gfresh; i = i + 1 }; i", "", true},
+				{"i=0; while i < M { gfreshf(); i = i + 1 }; i", "", true},
+				{"func g(){ gfresh + gfreshf() }; i=0; while i < M { g(); i = i + 1 }; i", "", true},
+				{"i=0; while i < M { gc + gf(1); i = i + 1 }; i", "", true},
+			} {
+				c := drv.AllOn()
+				c.OpLimit, c.ParseLimit, c.DefExpr, c.Host = b, 1000000, t.def, t.host
+				emit("adversarial/lazily compiled", c07Case{Src: strings.ReplaceAll(t.src, "M", m), Cfg: c})
+			}
+		}
 	}
 	for _, t := range tmpl {
 		ms := mags
@@ -125,6 +148,18 @@ func c07Enumerate(tier string, seed int64, emit func(string, any)) {
 		emit("capacity/operand stack", c07Case{Src: "x = 0; i = 0; while i < " + fmt.Sprint(n) + " { i = i + 1; x = x + 1 }; x", Cfg: big, Expect: fmt.Sprint(n)})
 		emit("capacity/operand stack", c07Case{Src: strings.Repeat("(1+", n) + "1" + strings.Repeat(")", n), Cfg: cfg, Expect: fmt.Sprint(n + 1)})
 	}
+	// code size of bodies that are compiled lazily (never-compiled values held by the VM; default-sides expression): used
+	// three times on one VM — every use errors or gives the value of the full body
+	for _, n := range []int{100, 4090, 4096, 4100, 8190, 8200, 9000} {
+		body := "1" + strings.Repeat("+1", n)
+		emit("capacity/code size of lazily compiled bodies", c07Case{Src: "lzc", Cfg: cfg, Expect: fmt.Sprint(n + 1), LazyBody: body, Reps: 3})
+		emit("capacity/code size of lazily compiled bodies", c07Case{Src: "lzf()", Cfg: cfg, Expect: fmt.Sprint(n + 1), LazyBody: body, Reps: 3})
+		emit("capacity/code size of lazily compiled bodies", c07Case{Src: "lzf() + lzc", Cfg: cfg, Expect: fmt.Sprint(2 * (n + 1)), LazyBody: body, Reps: 3})
+		dc := cfg
+		dc.DefExpr, dc.Max = body, true
+		emit("capacity/code size of lazily compiled bodies", c07Case{Src: "d", Cfg: dc, Expect: fmt.Sprint(n + 1), Reps: 3})
+		emit("capacity/code size of lazily compiled bodies", c07Case{Src: "func g(){ d }; g()", Cfg: dc, Expect: fmt.Sprint(n + 1), Reps: 3})
+	}
 	for _, n := range []int{1, 256, 511, 512, 513, 1024} {
 		emit("capacity/container length", c07Case{Src: fmt.Sprintf("[1..%d].len()", n), Cfg: cfg, Expect: fmt.Sprint(n)})
 		emit("capacity/container length", c07Case{Src: fmt.Sprintf("([0]*%d).len()", n), Cfg: cfg, Expect: fmt.Sprint(n)})
@@ -190,6 +225,25 @@ func c07Run(raw json.RawMessage) harn.Result {
 	}
 	defer func() { ds.VerifStepHook, ds.VerifRollHook = nil, nil }()
 	vm := drv.NewVM(c.Cfg)
+	if c.LazyBody != "" {
+		vm.Attrs.Store("lzc", ds.NewComputedVal(c.LazyBody))
+		vm.Attrs.Store("lzf", ds.NewFunctionValRaw(&ds.FunctionData{Expr: c.LazyBody, Name: "lzf"}))
+	}
+	for rep := 1; rep < c.Reps; rep++ {
+		// earlier uses on the same VM: each errors or gives the full value
+		var e1 error
+		if site, p := harn.Guard(func() { e1 = vm.Run(c.Src) }); p {
+			viol(site, "panic")
+			return res
+		}
+		if e1 == nil && c.Expect != "" {
+			if got := drv.Canon(vm.Ret); got != c.Expect {
+				viol("C07:truncated-result", fmt.Sprintf("use #%d on the VM returned %s — the full program evaluates to %s", rep, trunc(got, 80), c.Expect))
+				return res
+			}
+		}
+	}
+	steps, rolls, diceRolls = 0, 0, 0
 	var perr, rerr error
 	site, p := harn.Guard(func() {
 		perr = vm.Parse(c.Src)
